@@ -18,7 +18,7 @@ from concurrent.futures import ThreadPoolExecutor
 
 VERIF = os.path.dirname(os.path.dirname(os.path.abspath(__file__)))
 SPEC = os.path.join(VERIF, 'spec')
-WORK = os.path.join(VERIF, 'work')
+WORK = os.path.join(os.environ.get('VERIF_OUT') or VERIF, 'work')
 JAR = '/opt/veriftools/tla/tla2tools.jar'
 DEPS = '/opt/veriftools/tla/CommunityModules-deps.jar'
 
